@@ -61,7 +61,7 @@ fn space_for(tier: Tier) -> (Space, usize) {
     let n = spansets(SPANSET_INPUT.len()).len() as u64;
     match tier {
         Tier::Quick => {
-            s.ast("K", 4, 64).ast("CL", 3, 64).ast("U", 3, 64);
+            s.ast("K", 5, 64).ast("CL", 3, 64).ast("U", 3, 64);
             s.list("spansets", n, 64);
             (s, 3)
         }
